@@ -113,11 +113,13 @@ CHECKS = {
                  "(field-for-field, last-wins), then EVERY truncation point of its encoding (all bytes for inputs <= 1500 bytes, windows around "
                  "structural tokens and 1000-entry batch boundaries otherwise) and injected read errors. jsonsim: one evaluation = an add/get "
                  "history on the JSON store, save/load round trip, then a second SaveDatabase expanded into every file-system operation "
-                 "boundary x crash modes (or one injected ENOSPC/EIO). Non-trivial = at least 2 entries (migrate) / crash enumeration or a fired fault (json); "
+                 "boundary x crash modes (or one injected ENOSPC/EIO). jsonsched: 2-3 writer tasks (single and batch adds with unique or auto IDs) and "
+                 "0-2 reader tasks interleaved by the tape-driven scheduler at every lock operation of the JSON store; every added signature must be fetched back with its own content. Non-trivial = at least 2 entries (migrate) / crash enumeration or a fired fault (json); "
                  "distinct = distinct input encodings / operation traces."),
         "jobs": [
             {"engine": "storesim-migrate", "bin": "pebbledb", "test": "TestVerifC18Migrate", "cfg": {}, "weight": 3},
             {"engine": "jsonsim", "bin": "jsondb", "test": "TestVerifC18JSON", "cfg": {}, "weight": 1},
+            {"engine": "jsonsched", "bin": "jsondb", "test": "TestVerifC18JSONSched", "cfg": {}, "weight": 1},
         ],
         "assumptions": ["the old JSON file is durable (its directory synced) before the save that is crashed",
                         "durability of the rename itself is not demanded (C18 speaks of atomic replacement)",
